@@ -547,11 +547,17 @@ fn validate_variant_arm(input: &Variant, data_type_attrs: &DataTypeAttrs, errors
         }
 
         let attr = input.attrs.applicable_attr(&kind, data_type_attr.fallible, ty);
+        if kind.is_into_existing() {
+            // there is no `match` for an 'into_existing' conversion of an enum: what would be written is a block of bare arms
+            errors.insert(format!("Variant {}: 'into_existing' conversions are not available for enums (#[{}({}...)] trait instruction)", input.ident, FallibleKind(kind, data_type_attr.fallible), ty.path_str), input.ident.span());
+            continue;
+        }
+
         let supported = match (attr.is_some(), input.attrs.lit(ty).is_some(), input.attrs.pat(ty).is_some()) {
             (false, false, false) => true,
-            (true, false, false) | (false, true, false) => !kind.is_into_existing(),
+            (true, false, false) | (false, true, false) => true,
             (false, false, true) => kind.is_from(),
-            (true, false, true) => !kind.is_from() && !kind.is_into_existing(),
+            (true, false, true) => !kind.is_from(),
             _ => false,
         };
 
